@@ -76,7 +76,7 @@ def build_and_run(fam, wd, args=(), timeout=900):
                 out.append((c, -1, 'COMPILE-ERROR ' + o.decode('utf-8', 'replace')[-1500:])); continue
             os.replace(tmp, exe)
         try:
-            r = subprocess.run([exe] + list(args), stdout=subprocess.PIPE, stderr=subprocess.STDOUT, timeout=timeout)
+            r = subprocess.run([exe] + list(args), stdout=subprocess.PIPE, stderr=subprocess.STDOUT, timeout=min(timeout, int(os.environ.get('VERIF_REPLAY_RUN_TIMEOUT', '120'))))   # a family runs in seconds; a hang of the real code is reported as 'run timeout'
             out.append((c, r.returncode, r.stdout.decode('utf-8', 'replace')))
         except subprocess.TimeoutExpired:
             out.append((c, -9, 'run timeout'))
@@ -145,6 +145,7 @@ def witness_for(prop, v, wd, seed):
     kf = None
     from . import findings
     kf = findings.load(os.path.join(VERIF, 'known_findings.txt'))
+    if os.environ.get('VERIF_NO_NATIVE') == '1': fams = []      # self-test runs: the verdict of the contract check is all that is asked for
     for fam in fams:
         outs = build_and_run(fam, wd)
         if outs is None: continue
